@@ -40,7 +40,7 @@ PROFILES = {
     'C09': gen.profile(p_sw=0.45, p_oneof=0.1, p_rec=0.12, p_share_decider=0.5, p_unnamed_switch=0.4, p_share_lazy=0.4, p_lazy_fail_shape=0.12, p_shared_switch_shape=0.1),
     'C10': gen.profile(p_oneof=0.45, p_sw=0.1, p_rec=0.1, p_fail=0.25, p_cand_falsy=0.3, p_contain_shape=0.4, p_deep_chain=0.1, p_lazy_fail_shape=0.12, p_reuse_lazy=0.25, p_share_cand=0.3, p_sibling_oneof_shape=0.1, p_late_oneof_shape=0.1),
     'C11': gen.profile(p_rec=0.5, p_sw=0.1, p_oneof=0.15, p_rec_nested=0.45, p_falsy_ad=0.3, p_nested_exhaust_shape=0.3),
-    'C12': gen.profile(p_retry=0.8, p_fail=0.5, n_max=6),
+    'C12': gen.profile(p_retry=0.8, p_fail=0.5, n_max=6, p_generic=0.2),
     'C13': gen.profile(n_max=7, p_fatal=0.12),
     'C14': gen.profile(p_retry=0.4, p_fail=0.25),
     'C19': gen.profile(p_rec=0.1),
@@ -253,6 +253,12 @@ def work_generic(prop, tier, seed, widx, nworkers):
                         acc.counters['overlapping_cases'] = acc.counters.get('overlapping_cases', 0) + 1
                 if prop == 'C04':
                     case['gate_events'] = rng.choice([0.3, 0.7, 1.0])
+                if prop == 'C14' and rng.random() < 0.12:
+                    # several runs of one chart (overlapping or one after the other): the lifecycle grammar holds per run,
+                    # every run's managers see that run's events
+                    case['runs'] = [['r0', val]] + [[f'r{i}', rng.choice([0, 1, 2, 3])] for i in range(1, rng.randint(2, 3))]
+                    case['shape'] = rng.choice(['overlap', 'seq'])
+                    acc.counters['multi_run_cases'] = acc.counters.get('multi_run_cases', 0) + 1
                 if prop in ('C01', 'C03', 'C04', 'C11', 'C14') and rng.random() < 0.3:
                     # an artifact store whose save() really suspends (not write-once: C19 judges the saves)
                     case['store'] = True
